@@ -44,6 +44,9 @@ def step (s : St) (fs : List String) : St × String :=
     | some rs => ({ pol := put s.pol k rs, arr := put s.arr k rs }, "ok")
     | none => (s, "bad-op")
   | ["clear"] => ({}, "ok")
+  | ["clearkey", k] =>
+    -- `clear_policy()`: the rule set is empty afterwards (what it says about later adds is the next lines' business)
+    ({ pol := put s.pol k [], arr := put s.arr k [] }, answer "-" [] (some ("-", [])))
   | ["add", k, pi, rule] =>
     match optNat pi, decRule rule with
     | some pi, some r =>
